@@ -1,7 +1,8 @@
 """FST workload generator."""
 import random
 
-STATES = {"str": ["q0", "q1", "q2", "q3"], "int": [0, 1, 2, 3], "short": ["q", "q0", "q1", "q00"]}
+STATES = {"str": ["q0", "q1", "q2", "q3"], "int": [0, 1, 2, 3], "short": ["q", "q0", "q1", "q00"],
+          "graph": ["q0", "x y", "starting_0", 7]}
 INS = ["a", "b"]
 OUTS = ["x", "y", "xy", 1, "1"]      # ["x","y"] vs ["xy"], [1] vs ["1"]: equal when concatenated as text
 
@@ -26,6 +27,30 @@ def random_case(rng, max_states=3, max_trans=6, vcs=None, allow_eps_out=False):
     return c
 
 
+def hub_case(rng):
+    """several states that are both initial and final and are left through epsilon transitions only (the shape of a
+    union of starred transducers), loops through inner states back to a hub"""
+    hubs = rng.randint(1, 2)
+    n = hubs + rng.randint(1, 2)
+    trans = []
+    for h in range(hubs):
+        inner = rng.randrange(hubs, n)
+        trans.append([h, -1, inner, [rng.randrange(len(OUTS))] if rng.random() < 0.3 else []])
+        back = rng.randrange(hubs) if rng.random() < 0.3 else h
+        trans.append([inner, rng.randrange(2), back, [rng.randrange(len(OUTS)) for _ in range(rng.choice([0, 1, 1]))]])
+    for _ in range(rng.randint(0, 2)):
+        t = [rng.randrange(hubs, n), rng.randrange(2), rng.randrange(n), [rng.randrange(len(OUTS))]]
+        if t not in trans:
+            trans.append(t)
+    c = {"n": n, "trans": trans, "starts": list(range(hubs)), "finals": list(range(hubs)),
+         "vc": rng.choice(["str", "int", "short", "inject"])}
+    if c["vc"] == "inject":
+        c["perm"] = rng.sample(range(4), 4)
+    if rng.random() < 0.5:
+        c["shuffle"] = rng.randrange(1 << 30)
+    return c
+
+
 def sval(c, i):
     if c["vc"] == "inject":
         from vf.values import K
@@ -40,8 +65,10 @@ def build(c):
     tr = list(c["trans"])
     if "shuffle" in c:
         random.Random(c["shuffle"]).shuffle(tr)
+    ins = c.get("ins") or INS
+    outs = c.get("outs") or OUTS
     for p, a, q, out in tr:
-        f.add_transition(sval(c, p), "epsilon" if a < 0 else INS[a], sval(c, q), [OUTS[o] for o in out])
+        f.add_transition(sval(c, p), "epsilon" if a < 0 else ins[a], sval(c, q), [outs[o] for o in out])
     for s in c["starts"]:
         f.add_start_state(sval(c, s))
     for s in c["finals"]:
